@@ -1212,6 +1212,10 @@ class SCFGIO:
         for b in sorted(blocks):
             ys += indent(f"'{b}':\n", " " * 8)
             for k, v in blocks[b].items():
+                if isinstance(v, str):
+                    # Quote strings, such that names like '1' are read back
+                    # as strings and not as numbers.
+                    v = repr(v)
                 ys += indent(f"{k}: {v}\n", " " * 12)
 
         ys += "\nedges:\n"
